@@ -25,6 +25,22 @@ pub enum RPort {
 pub struct RAuth {
 	pub host: String,
 	pub port: RPort,
+	/// a second acceptable reading of the port: an explicit port that is the default of the scheme when the scheme
+	/// is not written in lower case (`WS://h:80`: scheme names are case-insensitive, so "the default port" and
+	/// "port 80" are both right)
+	pub alt: Option<RPort>,
+}
+
+impl RAuth {
+	fn ports(&self) -> Vec<RPort> {
+		let mut v = vec![self.port.clone()];
+		v.extend(self.alt.clone());
+		v
+	}
+	/// the same authority under at least one reading
+	pub fn same(&self, other: &RAuth) -> bool {
+		self.host == other.host && self.ports().iter().any(|p| other.ports().contains(p))
+	}
 }
 
 fn default_port(scheme: Option<&str>) -> Option<u16> {
@@ -38,6 +54,21 @@ fn default_port(scheme: Option<&str>) -> Option<u16> {
 
 /// `[scheme://][userinfo@]host[:port][/path]` — strict: the port is `*` or 1..5 digits fitting u16.
 pub fn ref_parse(s: &str) -> Option<RAuth> {
+	ref_parse_with(s, true)
+}
+
+/// The lenient reading keeps the structure (scheme, the last `@`, the bracket literal, `:port`, where the authority
+/// ends) and drops the character classes: printable ASCII other than backslash is let through in the userinfo and
+/// host parts, and the scheme may be empty. It is used only to judge an admitted request whose header is not an
+/// authority by the strict grammar (the `http` crate lets a few such texts through, e.g. `a[]b.example.com` or
+/// `://localhost`): the host it was admitted for must still be on the allow-list.
+pub fn ref_parse_lenient(s: &str) -> Option<RAuth> {
+	ref_parse_with(s, false)
+}
+
+fn ref_parse_with(s: &str, strict: bool) -> Option<RAuth> {
+	// (lenient: a fragment is cut off before anything else is looked at, as the `http` crate does)
+	let s = if strict { s } else { s.split('#').next().unwrap_or("") };
 	if !s.is_ascii() || s.is_empty() || s.bytes().any(|b| b <= 0x20 || b == 0x7f) {
 		return None;
 	}
@@ -46,7 +77,9 @@ pub fn ref_parse(s: &str) -> Option<RAuth> {
 		None => (None, s),
 	};
 	if let Some(sc) = scheme {
-		if sc.is_empty() || !sc.bytes().all(|b| b.is_ascii_alphanumeric() || b == b'+' || b == b'-' || b == b'.') {
+		// (`~` is not a scheme character in RFC 3986 but the `http` crate reads it as one; the scheme only selects
+		// the default port, so the reference is generous here)
+		if (strict && sc.is_empty()) || !sc.bytes().all(|b| b.is_ascii_alphanumeric() || b == b'+' || b == b'-' || b == b'.' || b == b'~') {
 			return None;
 		}
 	}
@@ -58,10 +91,9 @@ pub fn ref_parse(s: &str) -> Option<RAuth> {
 	let auth = &rest[..end];
 	let hostport = match auth.rfind('@') {
 		Some(i) => {
-			// userinfo = *( unreserved / sub-delims / ":" )  (pct-encoding is not accepted by the `http` crate)
-			// (the userinfo part is ignored by every reader; only the characters that would change where the
-			// authority ends are refused here)
-			if auth[..i].bytes().any(|b| b"[]@/?#".contains(&b)) {
+			// userinfo = *( unreserved / pct-encoded / sub-delims / ":" ) (RFC 3986); a text with any other character
+			// before the `@` (backslash, quote, braces, ...) is not an authority at all
+			if auth[..i].bytes().any(|b| if strict { !(b.is_ascii_alphanumeric() || b"-._~!$&'()*+,;=:%".contains(&b)) } else { b == b'\\' }) {
 				return None;
 			}
 			&auth[i + 1..]
@@ -93,12 +125,13 @@ pub fn ref_parse(s: &str) -> Option<RAuth> {
 		while i < hb.len() {
 			let b = hb[i];
 			// (pct-encoded octets are not accepted in a host by the `http` crate either)
-			if !(b.is_ascii_alphanumeric() || b"-._~!$&'()*+,;=".contains(&b)) {
+			if if strict { !(b.is_ascii_alphanumeric() || b"-._~!$&'()*+,;=".contains(&b)) } else { b == b'\\' } {
 				return None;
 			}
 			i += 1;
 		}
 	}
+	let mut alt = None;
 	let port = if after.is_empty() {
 		RPort::Default
 	} else {
@@ -106,20 +139,26 @@ pub fn ref_parse(s: &str) -> Option<RAuth> {
 		if p == "*" {
 			RPort::Any
 		} else {
-			if p.is_empty() || p.len() > 5 + 8 || !p.bytes().all(|b| b.is_ascii_digit()) {
+			if p.is_empty() || !p.bytes().all(|b| b.is_ascii_digit()) {
 				return None;
 			}
 			let n: u32 = p.trim_start_matches('0').parse().or_else(|_| if p.bytes().all(|b| b == b'0') { Ok(0) } else { Err(()) }).ok()?;
 			if n > 65535 {
 				return None;
 			}
-			match default_port(scheme) {
-				Some(d) if d as u32 == n => RPort::Default,
+			let lower = scheme.map(|s| s.to_ascii_lowercase());
+			match default_port(lower.as_deref()) {
+				Some(d) if d as u32 == n => {
+					if lower.as_deref() != scheme {
+						alt = Some(RPort::Fixed(n as u16));
+					}
+					RPort::Default
+				}
 				_ => RPort::Fixed(n as u16),
 			}
 		}
 	};
-	Some(RAuth { host: host.to_string(), port })
+	Some(RAuth { host: host.to_string(), port, alt })
 }
 
 /// pattern labels separated by '.', a label `*` matches one or more arbitrary characters
@@ -168,7 +207,7 @@ pub fn port_matches(entry: &RPort, req: &RPort) -> bool {
 }
 
 pub fn allowed(entries: &[RAuth], a: &RAuth) -> bool {
-	entries.iter().any(|e| host_matches(&e.host, &a.host) && port_matches(&e.port, &a.port))
+	entries.iter().any(|e| host_matches(&e.host, &a.host) && a.ports().iter().any(|p| port_matches(&e.port, p)))
 }
 
 // ---------------------------------------------------------------------------------------------
@@ -420,25 +459,39 @@ impl SubCheck for Filter {
 			})
 		});
 		let parsed: Vec<&RAuth> = [host_auth.as_ref().and_then(|x| x.as_ref()), uri_auth.as_ref().and_then(|x| x.as_ref())].into_iter().flatten().collect();
-		// brackets inside the userinfo part: the `http` crate accepts some of these texts and rejects others; the
-		// reference grammar does not try to mirror that, such requests are counted and not judged
-		let exotic = |t: &str| exotic_userinfo(t);
-		if host_strs.iter().any(|h| exotic(h)) || uri_str.as_deref().is_some_and(exotic) {
-			obs.class("outside-reference-grammar");
-			return;
+		// texts that are not authorities by the strict grammar get a lenient reading (same structure, no character
+		// classes); it only matters if such a request is admitted
+		let lenient_of = |t: &[u8], is_uri: bool| -> Option<RAuth> {
+			let s = std::str::from_utf8(t).ok()?;
+			let s = if is_uri { s.find("://").map_or(s, |i| &s[i + 3..]) } else { s };
+			ref_parse_lenient(s)
+		};
+		let mut lenient: Vec<RAuth> = vec![];
+		if hosts.len() == 1 {
+			lenient.extend(lenient_of(&hosts[0], false));
+		}
+		if let Some(u) = &uri {
+			lenient.extend(lenient_of(u, true));
+		}
+		if parsed.is_empty() && !lenient.is_empty() {
+			obs.class("outside-strict-grammar-with-lenient-reading");
 		}
 		// ---- soundness
 		obs.check(status == 200 || status == 400 || status == 403, "c14/unexpected-status", desc);
 		obs.check(was_called == (status == 200), "c14/status-and-inner-call-disagree", desc);
 		if was_called {
-			let agree = parsed.len() < 2 || parsed[0] == parsed[1];
-			let some_match = parsed.iter().any(|a| allowed(&refs, a));
-			if parsed.is_empty() {
+			let agree = parsed.len() < 2 || parsed[0].same(parsed[1]);
+			let candidates: Vec<&RAuth> = if parsed.is_empty() { lenient.iter().collect() } else { parsed.clone() };
+			let some_match = candidates.iter().any(|a| allowed(&refs, a));
+			if candidates.is_empty() {
 				obs.fail("c14/admitted-without-parsable-authority", desc());
 			} else if !agree {
 				obs.fail("c14/admitted-although-host-and-uri-disagree", desc());
 			} else if !some_match {
 				obs.fail("c14/admitted-authority-not-on-allow-list", desc());
+			}
+			if parsed.is_empty() {
+				obs.class("admitted-on-lenient-reading");
 			}
 		}
 		// ---- completeness, only as stated: an instance of the only configured entry, sent alone, is admitted
@@ -473,15 +526,7 @@ impl SubCheck for Filter {
 	}
 }
 
-/// userinfo with brackets or a second `@`: accepted or rejected by the `http` crate case by case; not judged
-pub fn exotic_userinfo(t: &str) -> bool {
-	t.rfind('@').is_some_and(|i| t[..i].contains(['[', ']', '@']))
-}
-
 pub fn host_bytes_oracle(allow: &[&str], host: &[u8]) -> Option<String> {
-	if std::str::from_utf8(host).is_ok_and(exotic_userinfo) {
-		return None;
-	}
 	let case_entries: Vec<String> = allow.iter().map(|s| s.to_string()).collect();
 	let layer = HostFilterLayer::new(case_entries.clone()).ok()?;
 	let refs: Vec<RAuth> = case_entries.iter().map(|t| ref_parse(t)).collect::<Option<Vec<_>>>()?;
@@ -499,7 +544,7 @@ pub fn host_bytes_oracle(allow: &[&str], host: &[u8]) -> Option<String> {
 	let rt = tokio::runtime::Builder::new_current_thread().build().unwrap();
 	let _ = rt.block_on(async { svc.call(req).await });
 	if called.load(Ordering::SeqCst) > 0 {
-		let a = std::str::from_utf8(host).ok().and_then(ref_parse);
+		let a = std::str::from_utf8(host).ok().and_then(|h| ref_parse(h).or_else(|| ref_parse_lenient(h)));
 		match a {
 			Some(a) if allowed(&refs, &a) => None,
 			other => Some(format!("allow {allow:?} admitted Host {:?} (reference authority: {other:?})", String::from_utf8_lossy(host))),
